@@ -2,7 +2,7 @@
    Statements only.  Together with C09_save_complete (a save makes all copies identical): after a successful command that
    saves on need_write, every configured copy exists and has the size of the loaded one -- and, if anything was missing or of
    another size, all copies are byte-identical.  Sizes are all the C compares: C09_same_size_stale_copy_not_noticed is the
-   behaviour of the unchanged tree (reported as a candidate finding), not a gap of the model. *)
+   behaviour of the unchanged tree (open known finding F-C09-same-size-stale-copy-unnoticed), not a gap of the model. *)
 From Coq Require Import NArith List Bool.
 From Snap.Content Require Import LoadChoice.
 Import ListNotations.
@@ -22,6 +22,8 @@ Theorem C09_earlier_missing_noticed : forall l d, loaded (None :: l) = Some d ->
 Proof. exact earlier_missing_noticed. Qed.
 Print Assumptions C09_earlier_missing_noticed.
 
+(* witness of the open known finding F-C09-same-size-stale-copy-unnoticed: two copies of the same size and different bytes,
+   need_write = false (first conjunct); a copy of another size or a missing one IS noticed (the others) *)
 Example C09_same_size_stale_copy_not_noticed :
   need_write [Some [1%N; 2%N; 3%N]; Some [1%N; 9%N; 3%N]] = false /\ need_write [Some [1%N; 2%N; 3%N]; Some [1%N; 2%N]] = true /\
   need_write [Some [1%N]; Some [1%N]; None] = true /\ need_write [None; Some [1%N]] = true /\ need_write [Some [1%N]; Some [1%N]] = false.
